@@ -6,6 +6,27 @@ PROPS = [json.loads(l) for l in open(os.path.join(V, "properties.jsonl"))]
 
 # property id -> (technique, level text, level note, design ref)
 CLAIMED = {
+    "C01": ("guard-dominance analysis over rustc MIR against operation-contract tables (Tables P/M/O), failure-atomicity reachability",
+            "For every mutation / hand-out site of MemoryFS and every backend call of the path layer the dominating branch outcomes (expanded through in-crate callees) must contain the operation's documented preconditions; missing targets build FileNotFound, occupied create_dir reports by occupant type; no mutation is followed by an Err return; PhysicalFS operations consist of exactly their std call; adapters re-use C07/C09 rules.",
+            "Decides precondition/refusal/error-kind clauses for all histories; 'a successful call changes exactly the named entries' is not decided. Table O is frozen from POSIX/Linux semantics.", "DESIGN.md §4 C01"),
+    "C02": ("sibling cross-check (MemoryFS guards as found in MIR vs OS-enforced guards of the std callee PhysicalFS uses)",
+            "Operation by operation the guard set found in MemoryFS's code is compared with the guard set the OS enforces for the std call PhysicalFS makes (callee read from the MIR, enforced set from the frozen Table O, plus guards PhysicalFS codes itself); error classes compared through the normalisation rules; Table P is backend independent.",
+            "Decides that both backends refuse the same calls with the same error classes; equality of resulting trees/bytes is not decided.", "DESIGN.md §4 C02"),
+    "C03": ("invariant-preservation obligations per mutation site (guard dominance over rustc MIR)",
+            "Inductive step of tree well-formedness: every add site guarded by parent-exists (+ parent-is-directory in the path layer), every overwrite by not-a-directory, every remove by type and emptiness, overlay removals/creations by union guards, writer publication re-validation; root constructed as a directory.",
+            "Interleavings are C16's rule; symlink games on PhysicalFS out of scope.", "DESIGN.md §4 C03"),
+    "C06": ("guard-dominance and value-origin analysis of the joiner and accessors over rustc MIR",
+            "Component filter ('.', '..', empty) dominates the only push; base selection and the single parent fallback; trailing-slash rejection exactly on its edge before any component; results assembled only from base and '/'+component; one shared implementation for sync/async paths; equality = string ∧ Arc::ptr_eq; filename/extension shape; no undischarged panic site.",
+            "Necessary conditions for canonical form and root confinement; that the output equals lexical resolution for every string (and the composition law) is functional correctness over all strings and is not decided by this family.", "DESIGN.md §4 C06"),
+    "C07": ("value-origin analysis + delegation table over rustc MIR (single gate, strip edges, exact delegation)",
+            "AltrootFS (sync+async): root field read only in the translator; join argument stripped exactly on the leading-'/' edge; every FileSystem method makes exactly one inner call of the same name on translator(own argument) and returns its result unchanged (three reasoned exceptions); listings return bare names; PhysicalFS::get_path strips on every path that starts with '/'; C06 joiner rules shared.",
+            "Lexical confinement only (symlinks out of scope, as the property states); outcome equality beyond delegation identity is the inner filesystem's contract (C01).", "DESIGN.md §4 C07"),
+    "C09": ("guard-dominance analysis on union predicates (Table U), resolver order, merged-listing shape, marker protocol (shared with C10)",
+            "Each upper-layer mutation of the overlay must be dominated (per path where needed) by the operation's preconditions evaluated on the union view; resolver consults the marker first and visits layers in order; listing merges all layers into a set and subtracts markers by exact suffix; removal/re-creation rest on the marker protocol.",
+            "Value-level union semantics (type conflicts across layers, bytes) not decided.", "DESIGN.md §4 C09"),
+    "C10": ("pairing / must-pass-through / who-may-call analysis of the whiteout-marker protocol over rustc MIR",
+            "Marker created on every success return of remove_* (tail calls count as success returns) and after the upper copy is removed; consulted before every layer lookup; on re-creation exactly the path's own marker is removed and only after the upper create; nothing else in the overlay touches the marker namespace; reserved namespace hidden (known finding).",
+            "Listing contents are value-level; reserved names are excluded from the property's domain.", "DESIGN.md §4 C10"),
     "C08": ("effect + provenance analysis over rustc MIR (mutated-operand origin, observer purity)",
             "Static effect/provenance analysis of every call site reachable from OverlayFS (sync and async): each path operand in a mutated position must originate from layers[0]; observers must reach no mutating call. Necessary and, under the stated assumption, sufficient for the property, for all histories/inputs/stackings at once.",
             "Assumes a layer's own observing methods do not mutate that layer (checked as a note for in-crate backends, assumed for foreign FileSystem impls); trusts rustc's MIR and callee resolution.", "DESIGN.md §4 C08"),
